@@ -211,6 +211,21 @@ pub fn gen_case(prop: &str, seed: u64, idx: u64) -> Case {
             case.broker.server_disconnect_pct = *r.pick(&[0u64, 20]);
             case.broker.random_caps = r.chance(1, 2);
             case.broker.inbound_count = *r.pick(&[0usize, 10]);
+            if r.chance(1, 3) {
+                // answers that are legal but arrive in an awkward state: a PINGRESP (or an ack) that is
+                // still on its way when the user's DISCONNECT has been encoded but not yet written
+                case.engine.connect.keep_alive = Some(*r.pick(&[1u16, 2]));
+                case.engine.ping_timeout_ms = 30_000;
+                case.broker.server_keep_alive_choices = vec![None];
+                case.broker.ping_delay_ms = Some((300, 2500));
+                case.sim.op_gap_max_ms = *r.pick(&[1500u64, 4000]);
+                case.sim.stop_permille = *r.pick(&[0u64, 5]);
+                case.sim.stop_while_ping_outstanding_pct = *r.pick(&[20u64, 50]);
+                case.sim.idle_tail_ms = 30_000;
+                case.sim.write_chunk_max = *r.pick(&[1usize, 3]);
+                case.sim.write_stall_pct = 30;
+                case.sim.n_ops = r.range(1, 8) as usize;
+            }
         }
         "C14" => {
             case.sim = SimProfile::default();
